@@ -20,19 +20,21 @@ RULE = (
     "constructed set (mutable and frozen) a battery of lookups, membership tests, subset/superset/disjoint tests, the four binary operations with every "
     "argument set as contentsSet/OrderedContentsSet/iterator of entries, change_offset/insert_offset for every applicable "
     "prefix and add-missing-directories construction is judged against the model; every expanded search state gets the lookup "
-    "battery (entry and 5 spellings per path). A class is (operation, outcome)."
+    "battery (entry and 5 spellings per path). Iterator/generator arguments also come as sequences naming one path twice "
+    "(two entries built from different spellings); the family add_missing_directories ; any one mutator ; "
+    "add_missing_directories is explored from every root. A class is (operation, outcome)."
 )
 ASSUMPTIONS = [
     "paths are absolute and do not start with '//' (POSIX normpath keeps a leading double slash); normalisation = collapse '//', '/./', trailing '/', lexical '..'",
-    "Excl: binary set operations are given another contents set (contentsSet or OrderedContentsSet) or an iterator of entries (the kinds the statement and the repository tests use); lists/tuples/python sets of entries and iterables of path strings are not in the alphabet",
+    "Excl: binary set operations are given another contents set (contentsSet or OrderedContentsSet) or an iterator of entries (the kinds the statement and the repository tests use); lists/tuples/python sets of entries and iterables of path strings are not in the alphabet; an iterator/generator may name one path twice - the key set is judged, and either of its entries for that path is accepted",
     "Excl: where both operands hold an entry for a path, union/intersection may return either operand's entry (the statement fixes keys, not which value wins); add/update replace the value (map assignment)",
     "Excl: change_offset is only applied when every entry lies under the old prefix, and the old prefix is spelled normalised or with trailing '/' characters (what the rewriter strips); new prefixes are absolute",
     "Excl: frozen (mutable=False) sets are only queried, never mutated; iteration order of OrderedContentsSet is part of the state hash but not judged",
     "add_missing_directories is called with an explicit mtime (its default reads the clock)",
 ]
 BOUNDS = {
-    "quick": "search roots: all 67 sets of <=2 of the 12 entries x {contentsSet, OrderedContentsSet}, every history of <=2 further operations (~370 operations enabled per state); query battery (~1500 queries) on all 175 sets of <=3 entries x 2 classes x {mutable, frozen}; lookup battery in every expanded state, light battery in states holding relocated/auto-created entries",
-    "thorough": "search roots: all 175 sets of <=3 entries x 2 classes with every history of <=2 further operations (~520 operations per state, binary-operation results with all three argument kinds), plus the 13 sets of <=1 entry x 2 classes with every history of <=3 operations; query battery on all 256 sets of <=4 entries x 2 classes x {mutable, frozen}",
+    "quick": "search roots: all 67 sets of <=2 of the 12 entries x {contentsSet, OrderedContentsSet}, every history of <=2 further operations (~370 operations enabled per state); query battery (~1500 queries) on all 175 sets of <=3 entries x 2 classes x {mutable, frozen}; lookup battery in every expanded state, light battery in states holding relocated/auto-created entries; from every root x 2 add_missing_directories variants: add_missing_directories ; any add/remove/discard/update/*_update/clear ; add_missing_directories (3 operations)",
+    "thorough": "search roots: all 175 sets of <=3 entries x 2 classes with every history of <=2 further operations (~520 operations per state, binary-operation results with all three argument kinds), plus the 13 sets of <=1 entry x 2 classes with every history of <=3 operations; query battery on all 256 sets of <=4 entries x 2 classes x {mutable, frozen}; every history of <=2 operations after add_missing_directories from the 67 sets of <=2 entries; the add_missing_directories ; mutator ; add_missing_directories family from all 175 roots",
 }
 
 PATHS = ["/a", "/a/b", "/a/b/c", "/d"]
@@ -111,6 +113,23 @@ def m_of(eis):
         s = entry_sig(ei)
         m[s[1]] = s
     return m
+
+
+def m_multi(eis):
+    """every value an argument sequence offers per normalised path (a sequence may name one path more than once)"""
+    m = {}
+    for ei in eis:
+        s = entry_sig(ei)
+        m.setdefault(s[1], set()).add(s)
+    return m
+
+
+def widen(allowed, eis):
+    """where the argument named a path several times, any of its entries for that path is acceptable wherever one is"""
+    for k, alts in m_multi(eis).items():
+        if len(alts) > 1 and k in allowed and allowed[k] & alts:
+            allowed[k] = allowed[k] | alts
+    return allowed
 
 
 def under(k, prefix):
@@ -258,6 +277,8 @@ def mk_set(cls, eis, mutable=True):
 def mk_arg(akind, eis):
     if akind == "iter":
         return iter([E(i) for i in eis])
+    if akind == "gen":
+        return (E(i) for i in eis)
     return mk_set(akind, eis)
 
 
@@ -337,6 +358,7 @@ def apply(st, ev):
             real.update([E(i) for i in ev[1]])
         elif op in UPDOPS:
             model = m_inplace(op, model, m_of(ev[2]))
+            exp_allowed = widen({k: {v} for k, v in model.items()}, ev[2])
             getattr(real, UPDOPS[op])(mk_arg(ev[1], ev[2]))
         elif op == "amd":
             model = m_amd(model, ev[1])
@@ -347,7 +369,7 @@ def apply(st, ev):
         elif op == "clone":
             real = real.clone()
         elif op == "assign":
-            exp_allowed = m_binary(ev[1], model, m_of(ev[3]))
+            exp_allowed = widen(m_binary(ev[1], model, m_of(ev[3])), ev[3])
             real = getattr(real, ev[1])(mk_arg(ev[2], ev[3]))
         elif op == "reloc":
             model = m_reloc(model, ev[1], ev[2])
@@ -400,6 +422,14 @@ ARGSETS_LIGHT = subsets(1) + [
 UPDATE_LISTS = [(p * 3 + a, p * 3 + b) for p in range(4) for a in range(3) for b in range(3) if a != b] + [
     (p * 3, q * 3 + 1) for p in range(4) for q in range(4) if p != q
 ]
+# argument sequences naming one path twice (two different entries built from two different spellings), only ever handed
+# over as one-shot iterators/generators: a map keyed by normalised path sees that path once
+DUPSETS_FULL = [(p * 3 + a, p * 3 + b) for p in range(4) for a in range(3) for b in range(3) if a != b] + [
+    t for p in range(4) for t in ((p * 3, p * 3 + 1, ((p + 1) % 4) * 3 + 2), (p * 3 + 2, ((p + 1) % 4) * 3, p * 3 + 1))
+]
+DUPSETS_LIGHT = [(p * 3 + p % 3, p * 3 + (p + 1) % 3) for p in range(4)] + [(4, 9, 5)]
+DUP_AKINDS = ["iter", "gen"]
+MUTATORS = ("add", "remove", "discard", "update", "diff_u", "inter_u", "symdiff_u", "clear")
 BASE_STRINGS = [spell(p, si) for p in PATHS for si in range(NSPELL)]
 
 
@@ -432,6 +462,8 @@ def enabled_events(st, hist, quick):
         for ak in AKINDS:
             for a in argsets:
                 yield (op, ak, a)
+        for i, a in enumerate(DUPSETS_LIGHT):
+            yield (op, DUP_AKINDS[i % 2], a)
     yield ("amd", 0)
     yield ("amd", 1)
     yield ("clear",)
@@ -440,11 +472,24 @@ def enabled_events(st, hist, quick):
         for ak in AKINDS[:1] if quick else AKINDS:  # the query battery runs these four with every argument kind anyway
             for a in argsets:
                 yield ("assign", op, ak, a)
+        for i, a in enumerate(DUPSETS_LIGHT):
+            yield ("assign", op, DUP_AKINDS[(i + 1) % 2], a)
     if st.relocs == 0 and st.model:
         for old in OLD_OFFSETS:
             if all(under(k, norm(old)) for k in st.model):
                 for new in ("/n", "/", "/a/"):
                     yield ("reloc", old, new)
+
+
+def enabled_amd3(st, hist):
+    """the family  add_missing_directories ; any one mutator ; add_missing_directories  (root = init + amd)"""
+    if len(hist) == 2:
+        for ev in enabled_events(st, hist, True):
+            if ev[0] in MUTATORS:
+                yield ev
+    elif len(hist) == 3:
+        yield ("amd", 0)
+        yield ("amd", 1)
 
 
 def is_plain(model):
@@ -466,6 +511,9 @@ def probes_for(st, level):
     for op in PREDS + BINOPS:
         for ak in AKINDS:
             for a in argsets:
+                yield (op, ak, a)
+        for ak in DUP_AKINDS:
+            for a in DUPSETS_FULL if level == "full" else DUPSETS_LIGHT:
                 yield (op, ak, a)
     for old in OLD_OFFSETS:
         if st.model and all(under(k, norm(old)) for k in st.model):
@@ -504,7 +552,7 @@ def run_probe(st, probe):
         elif op in PREDS or op in BINOPS:
             a = m_of(probe[2])
             arg = mk_arg(probe[1], probe[2])
-            rel = "empty" if not a else "disjoint" if not set(a) & set(model) else "samevals" if all(model.get(k) == v for k, v in a.items() if k in model) else "overlap"
+            rel = "dupkeys" if len(a) < len(probe[2]) else "empty" if not a else "disjoint" if not set(a) & set(model) else "samevals" if all(model.get(k) == v for k, v in a.items() if k in model) else "overlap"
             if op in PREDS:
                 got = getattr(real, op)(arg)
                 cls = f"{op}:{got}"
@@ -518,10 +566,10 @@ def run_probe(st, probe):
                     msgs.append(f"{op} returned the set itself")
                 got, _o, probs = snap(res)
                 msgs.extend(f"{op} result: {p}" for p in probs)
-                d = diff_allowed(got, m_binary(op, model, a))
+                d = diff_allowed(got, widen(m_binary(op, model, a), probe[2]))
                 if d:
                     msgs.append(f"{fmt(model)}.{op}({probe[1]} {fmt(a)}): {d}")
-            if probe[1] != "iter":
+            if probe[1] in ("cset", "ocset"):
                 d = diff_state(snap(arg)[0], a)
                 if d:
                     msgs.append(f"{op} modified its argument: {d}")
@@ -599,6 +647,12 @@ def tasks(tier):
         if tier != "quick":
             for eis in subsets(1):
                 out.append(("bfs", cls, eis, 3, False))
+            for eis in subsets(2):
+                for v in range(len(AMD_VARIANTS)):
+                    out.append(("amdbfs", cls, eis, v))
+        sets = subsets(nroot)
+        for i in range(0, len(sets), 9):
+            out.append(("amd3", cls, tuple(sets[i : i + 9])))
     bat = [(cls, mutable, eis) for eis in subsets(nbat) for cls in ("cset", "ocset") for mutable in (True, False)]
     for i in range(0, len(bat), 8):
         out.append(("battery", tuple(bat[i : i + 8])))
@@ -660,7 +714,7 @@ def work(task):
     def check(st, hist):
         nonlocal evals
         evals += 1
-        if len(hist) > 1:
+        if len(hist) > 1 and hist[-1][0] != "init":
             note(event_class(st.prev, hist[-1]))
         for m in st.last_notes:
             add_case({"hist": list(hist), "probe": None, "msg": m})
@@ -668,9 +722,9 @@ def work(task):
         if key in battery_done:
             return []
         battery_done.add(key)
-        if task[0] == "bfs" and len(hist) >= 1 + task[3]:
+        if len(hist) >= battery_below:
             return []  # leaf of the bounded search: the transition was judged above, queries run in expanded states
-        level = "full" if task[0] == "battery" else "lookups" if is_plain(st.model) else "light"
+        level = "full" if task[0] == "battery" else "lookups" if task[0] == "amd3" or is_plain(st.model) else "light"
         for probe in probes_for(st, level):
             evals += 1
             c, msgs = run_probe(st, probe)
@@ -682,13 +736,22 @@ def work(task):
     states = transitions = 0
     samples = []
     maxd = 0
+    battery_below = 99
+    en = lambda st, hist: enabled_events(st, hist, task[0] == "bfs" and task[4])  # noqa: E731
     if task[0] == "bfs":
         _, cls, eis, depth, quick = task
         roots = [((("init", cls, True, tuple(eis)),), 1 + depth)]
+    elif task[0] == "amdbfs":
+        _, cls, eis, v = task
+        roots = [((("init", cls, True, tuple(eis)), ("amd", v)), 4)]
+    elif task[0] == "amd3":
+        roots = [((("init", task[1], True, tuple(eis)), ("amd", v)), 4) for eis in task[2] for v in range(len(AMD_VARIANTS))]
+        en = enabled_amd3
     else:
         roots = [((("init", cls, mutable, tuple(eis)),), 1) for cls, mutable, eis in task[1]]
     for root, md in roots:
-        r = bfs.explore(root, build, lambda st, hist: enabled_events(st, hist, task[0] == "bfs" and task[4]), canon, check, md)
+        battery_below = 3 if task[0] == "amd3" else md if task[0] in ("bfs", "amdbfs") else 99
+        r = bfs.explore(root, build, en, canon, check, md)
         states += r["states"]
         transitions += r["transitions"]
         maxd = max(maxd, r["max_depth"] - 1)
